@@ -11,6 +11,7 @@ ENGINE = {"C01", "C02", "C03", "C04", "C05", "C09"}
 RESOLVE = {"C06", "C07", "C08", "C10"}
 APP = {"C12", "C13", "C14"}
 CONC = {"C20"}
+CFG = {"C15", "C16"}
 
 
 def setup():
@@ -49,6 +50,9 @@ def main():
     if a.prop in CONC:
         import check_conc
         return check_conc.run_check(a.prop, a.tier, a.replay)
+    if a.prop in CFG:
+        import check_cfg
+        return check_cfg.run_check(a.prop, a.tier, a.replay)
     raise vlib.Infra("no check registered for %r" % a.prop)
 
 
